@@ -115,10 +115,10 @@ type connInfo struct {
 	conn, disc       uint64 // Connected / Disconnected notification (0 = not seen)
 	connAt, discAt   time.Duration
 	closedAtAdmit    bool // IsClosed() already when the swarm asked the gater to admit it
+	ungated          bool // admitted by the swarm although the node's gater has not passed that many direct connections of the peer
 }
 
-// action: something that legitimately ends connections (a close by the harness on either side, or the refusal of
-// an inbound connection by a node's scripted gater, which the dialling side sees as a connection that dies at once)
+// action: the refusal of an inbound connection by a node's scripted gater
 type action struct {
 	node  int
 	stamp uint64
@@ -206,7 +206,6 @@ type world struct {
 	ops      []*opRec
 	probed   map[string]bool
 
-	closes   []action // closes issued by the harness (either node)
 	refusals []action // inbound connections refused by a node's scripted gater
 
 	// race stratum
@@ -220,42 +219,10 @@ type world struct {
 	wrapped    bool // hole punch services built by the harness around a recording host wrapper
 }
 
-func (w *world) closing(node int) {
-	w.closes = append(w.closes, action{node: node, stamp: simrt.Stamp(), at: simrt.Now()})
-}
-
-// excused: the end of connection ci (in view v) can be explained by something the harness did — a close issued on
-// either side while the connection existed, or the PEER's gater refusing an inbound connection around the time this
-// node's dial completed (up to 5 s before this node saw the connection: handshake completion differs by round trips
-// and retransmissions). A connection that ends at the instant it appears with no such cause never really existed.
-func (w *world) excused(v *view, ci *connInfo) bool {
-	_, firstAt := ci.firstSeen()
-	end := ci.discAt
-	if ci.disc == 0 {
-		return true
-	}
-	for _, a := range w.closes {
-		from := firstAt
-		if a.node != v.node {
-			from -= 5 * time.Second // the other side may close before this side has finished setting the connection up
-		}
-		if a.at >= from && a.at <= end {
-			return true
-		}
-	}
-	for _, a := range w.refusals {
-		if a.node != v.node && a.at >= firstAt-5*time.Second && a.at <= end {
-			return true
-		}
-	}
-	return false
-}
-
-// phantom: a direct connection that ended at the very instant it appeared and whose end nothing explains
-func (w *world) phantom(v *view, ci *connInfo) bool {
-	_, firstAt := ci.firstSeen()
-	return !ci.relayed && ci.disc != 0 && ci.discAt == firstAt && !w.excused(v, ci)
-}
+// phantom: a "connection" that the node's swarm admitted although the node's own connection gater never let it pass
+// InterceptSecured (the gater refused it at InterceptAccept or InterceptSecured): for the purposes of this property
+// such a connection never existed, whatever the swarm briefly listed.
+func (w *world) phantom(_ *view, ci *connInfo) bool { return ci.ungated }
 
 func (w *world) openGate() {
 	if w.gate != nil {
@@ -313,6 +280,10 @@ type recGater struct {
 	armed   bool   // refusing now (from the start, or switched on when the first relayed connection to the peer is admitted)
 	onRelay bool   // switch on at the first relayed connection
 	peerIP  string // the peer's IP (InterceptAccept sees addresses only)
+
+	// ground truth for "this connection exists": every direct connection the swarm admits has passed InterceptSecured
+	// (TCP: upgrader, both directions; QUIC: the transport on dial, the listener after InterceptAccept) exactly once
+	securedOK, admittedDirect int
 }
 
 func (g *recGater) refused(where int, c network.ConnMultiaddrs) bool {
@@ -330,12 +301,23 @@ func (g *recGater) InterceptPeerDial(peer.ID) bool                { return true 
 func (g *recGater) InterceptAddrDial(peer.ID, ma.Multiaddr) bool  { return true }
 func (g *recGater) InterceptAccept(c network.ConnMultiaddrs) bool { return !g.refused(1, c) }
 func (g *recGater) InterceptSecured(dir network.Direction, p peer.ID, c network.ConnMultiaddrs) bool {
-	return !(dir == network.DirInbound && p == g.v.other && g.refused(2, c))
+	if dir == network.DirInbound && p == g.v.other && g.refused(2, c) {
+		return false
+	}
+	if p == g.v.other && !isRelayAddr(c.RemoteMultiaddr()) {
+		g.securedOK++
+	}
+	return true
 }
 func (g *recGater) InterceptUpgraded(c network.Conn) (bool, control.DisconnectReason) {
 	if ci := g.v.info(c); ci != nil && ci.admit == 0 {
 		ci.admit, ci.admitAt = simrt.Stamp(), simrt.Now()
 		ci.closedAtAdmit = c.IsClosed()
+		if !ci.relayed {
+			if g.admittedDirect++; g.admittedDirect > g.securedOK {
+				ci.ungated = true
+			}
+		}
 		if ci.relayed && g.onRelay {
 			g.armed = true
 		}
@@ -365,7 +347,6 @@ func (n *recNotifiee) Connected(_ network.Network, c network.Conn) {
 		}
 		if n.v.closeNext && !ci.limited && !ci.relayed {
 			n.v.closeNext = false
-			n.v.w.closing(n.v.node)
 			c.Close()
 		}
 	}
@@ -1173,7 +1154,6 @@ func runWorld(t *testing.T, tape *simrt.Tape, g simrt.Gen, mode int) *common.Out
 						serr = with(5*time.Second, func(ctx context.Context) error {
 							c, err := B.Swarm.DialPeer(network.WithForceDirectDial(ctx, "c12"), A.ID)
 							if err == nil && st.kind == eFlapInbound {
-								w.closing(1)
 								c.Close()
 							}
 							return err
@@ -1185,7 +1165,6 @@ func runWorld(t *testing.T, tape *simrt.Tape, g simrt.Gen, mode int) *common.Out
 						serr = with(5*time.Second, func(ctx context.Context) error {
 							c, err := A.Swarm.DialPeer(network.WithForceDirectDial(ctx, "c12"), B.ID)
 							if err == nil && st.kind == eFlapOutbound {
-								w.closing(0)
 								c.Close()
 							}
 							return err
@@ -1193,7 +1172,6 @@ func runWorld(t *testing.T, tape *simrt.Tape, g simrt.Gen, mode int) *common.Out
 					case eCloseDirectAtA, eCloseLimitedAtA:
 						for _, c := range A.Swarm.ConnsToPeer(B.ID) {
 							if isRelayAddr(c.RemoteMultiaddr()) == (st.kind == eCloseLimitedAtA) {
-								w.closing(0)
 								c.Close()
 								if st.kind == eCloseLimitedAtA {
 									o.Fault("relayed-conn-closed-locally")
@@ -1205,7 +1183,6 @@ func runWorld(t *testing.T, tape *simrt.Tape, g simrt.Gen, mode int) *common.Out
 					case eCloseDirectAtB:
 						for _, c := range B.Swarm.ConnsToPeer(A.ID) {
 							if !isRelayAddr(c.RemoteMultiaddr()) {
-								w.closing(1)
 								c.Close()
 								o.Fault("direct-conn-closed-by-peer")
 							}
@@ -1214,13 +1191,11 @@ func runWorld(t *testing.T, tape *simrt.Tape, g simrt.Gen, mode int) *common.Out
 						if len(A.Swarm.ConnsToPeer(B.ID)) > 0 {
 							o.Fault("all-conns-closed-locally")
 						}
-						w.closing(0)
 						A.Swarm.ClosePeer(B.ID)
 					case eArmCloseInConnected:
 						w.v[0].closeNext = true
 					case eBReconnectsViaRelay:
 						if aReserves {
-							w.closing(1)
 							B.Swarm.ClosePeer(A.ID)
 							n.SetRefused(aDirect, true)
 							fw.closed[ipA] = true
@@ -1246,7 +1221,6 @@ func runWorld(t *testing.T, tape *simrt.Tape, g simrt.Gen, mode int) *common.Out
 			// back to "limited only"
 			for _, c := range A.Swarm.ConnsToPeer(B.ID) {
 				if !isRelayAddr(c.RemoteMultiaddr()) {
-					w.closing(0)
 					c.Close()
 				}
 			}
@@ -1337,7 +1311,6 @@ func runWorld(t *testing.T, tape *simrt.Tape, g simrt.Gen, mode int) *common.Out
 		takeSample()
 		for _, c := range A.Swarm.ConnsToPeer(B.ID) {
 			if !isRelayAddr(c.RemoteMultiaddr()) {
-				w.closing(0)
 				c.Close()
 			}
 		}
@@ -1366,7 +1339,6 @@ func runWorld(t *testing.T, tape *simrt.Tape, g simrt.Gen, mode int) *common.Out
 		if fw.punches > 0 {
 			w.probe("quic-transport-hole-punch-packets")
 		}
-		w.closing(0) // the deferred host closes end whatever is still open
 		finished = true
 	})
 	o.Sched = res
@@ -1401,9 +1373,9 @@ func runWorld(t *testing.T, tape *simrt.Tape, g simrt.Gen, mode int) *common.Out
 				w.probe("inbound-limited-conn-on-A")
 			}
 			if w.phantom(v, v.conns[id]) {
-				// not a violation by itself; on the unchanged tree this should not happen at all
-				w.probe("conn-ended-at-once-unexplained")
-				o.Logf("%c's connection %s ended at the instant it appeared and nothing explains it", "AB"[i], id)
+				// judged through its consequences (reported success, woken waiters); cannot happen on a correct tree
+				w.probe("conn-admitted-although-own-gater-refused-it")
+				o.Logf("%c's swarm admitted connection %s although %c's gater had not let it pass", "AB"[i], id, "AB"[i])
 			}
 		}
 	}
@@ -1502,7 +1474,7 @@ func (w *world) judgeA(sig *strings.Builder, postDirect string) {
 	v := w.v[0]
 	for _, id := range v.order {
 		ci := v.conns[id]
-		o.Logf("conn %s limited=%v relayed=%v dir=%v admitted=%d(%v) Connected=%d Disconnected=%d(%v) closed-at-admission=%v unexplained-instant-end=%v", id, ci.limited, ci.relayed, ci.dir, ci.admit, ci.admitAt, ci.conn, ci.disc, ci.discAt, ci.closedAtAdmit, w.phantom(v, ci))
+		o.Logf("conn %s limited=%v relayed=%v dir=%v admitted=%d(%v) Connected=%d Disconnected=%d(%v) closed-at-admission=%v never-passed-own-gater=%v", id, ci.limited, ci.relayed, ci.dir, ci.admit, ci.admitAt, ci.conn, ci.disc, ci.discAt, ci.closedAtAdmit, w.phantom(v, ci))
 		fmt.Fprintf(sig, "c:%v%v%v%v;", ci.limited, ci.relayed, ci.dir, ci.disc != 0)
 		if ci.limited && !ci.relayed {
 			o.Violate("C12/limited-flag-on-direct-address", "connection %s is Limited but its remote address is not a relay address", id)
@@ -1546,8 +1518,7 @@ func (w *world) judgeA(sig *strings.Builder, postDirect string) {
 		if sp.api == apiHostConnect && sp.force && r.err == nil && !v.directOverlaps(r.inv, r.ret) {
 			o.Violate("C12/force-direct-connect-without-direct-conn", "Host.Connect with force-direct succeeded during [%d,%d] although no direct connection to the peer was open in that interval", r.inv, r.ret)
 		}
-		// ... and what it returns / reports must be a connection that really existed: not one that the swarm was handed
-		// already dead (it ends at the instant it appears, and nothing the harness or the peer's gater did explains that)
+		// ... and what it returns / reports must be a connection that really existed: not one the node's own gater refused
 		if sp.force && r.err == nil && (sp.api == apiSwarmDialPeer || sp.api == apiHostConnect) {
 			real := false
 			for _, id := range v.order {
@@ -1556,7 +1527,7 @@ func (w *world) judgeA(sig *strings.Builder, postDirect string) {
 				}
 			}
 			if !real && !r.relayed && !r.limited {
-				o.Violate("C12/force-direct-success-with-dead-conn/"+api, "%s with force-direct succeeded during [%d,%d] (conn %s) but the only direct connection involved ended at the instant it appeared, unexplained: no direct connection existed", api, r.inv, r.ret, r.connID)
+				o.Violate("C12/force-direct-success-with-dead-conn/"+api, "%s with force-direct succeeded during [%d,%d] (conn %s) but the only direct connection involved had been refused by the node's own gater: no direct connection existed", api, r.inv, r.ret, r.connID)
 			}
 		}
 		// (3) timing: every call returns by its own deadline; a pure wait (no-dial) for a direct
@@ -1588,7 +1559,7 @@ func (w *world) judgeA(sig *strings.Builder, postDirect string) {
 			if r.kind == "limited-conn" && !directAdmittedIn(r.inv, r.ret) {
 				o.Violate("C12/gave-up-without-waiting", "%v returned ErrLimitedConn after %v although no direct connection was admitted during the call", sp, r.retAt-r.invAt)
 			} else if r.kind == "limited-conn" {
-				// ... and that connection must have existed: a waiter woken by a connection that was dead on arrival was woken by nothing
+				// ... and that connection must have existed: a waiter woken by a connection the gater had refused was woken by nothing
 				real := false
 				for _, id := range v.order {
 					if ci := v.conns[id]; !ci.limited && ci.admit > r.inv && ci.admit < r.ret && !w.phantom(v, ci) {
@@ -1596,7 +1567,7 @@ func (w *world) judgeA(sig *strings.Builder, postDirect string) {
 					}
 				}
 				if !real {
-					o.Violate("C12/waiter-woken-without-direct-conn", "%v returned ErrLimitedConn after %v: every direct connection admitted during the call ended at the instant it appeared, unexplained (no direct connection ever existed)", sp, r.retAt-r.invAt)
+					o.Violate("C12/waiter-woken-without-direct-conn", "%v returned ErrLimitedConn after %v: every direct connection admitted during the call had been refused by A's own gater (no direct connection ever existed)", sp, r.retAt-r.invAt)
 				}
 			}
 			// a direct connection that is open during the whole call must be used (zero virtual time passes
